@@ -9,8 +9,9 @@ matching follows the documented pattern rules.
 
 All statements are about the executable model `Model.lean` (tied to the Go code by the
 correspondence stream); byte strings under ASCII case folding; no bound on list sizes.
-Clauses the unchanged tree violates are in `Witness.lean` (`…_full_fails`), their provable
-parts here under an explicit decidable exclusion.
+Clauses the tree violates are in `Witness.lean` (`…_full_fails`), their provable parts here
+under an explicit decidable exclusion; clauses that failed before a `fix:` commit are proved
+here at full strength and have an `…_old_code_fails` theorem in `Witness.lean`.
 -/
 import CaddyModel.C06.GlobLemmas
 import CaddyModel.C06.Witness
@@ -108,6 +109,19 @@ theorem matchHost_independent_of_sort_algorithm (thr : Nat) (l m : List Bytes) (
     funext (entryMatches_lower _)
   rw [this]
 
+/-- **non-ASCII request hosts never reach the optimised code.** For a request host with a byte
+    ≥ 0x80 the matcher — whatever the size of its list — is literally the linear scan of the
+    small-list code path over its slice: no binary search, no early `break`.  So for such hosts
+    the size-invariance above does not rest on `strings.ToLower`-equality and
+    `strings.EqualFold` agreeing (they do not beyond ASCII: U+017F, U+0130), which is what the
+    `fix:` commit "host matcher: large lists take the fast path for ASCII hosts only" repaired. -/
+theorem matchHost_nonascii_is_linear_scan (thr : Nat) (m : List Bytes) (rhost : Bytes)
+    (h : asciiOnly (stripPort rhost) = false) :
+    matchHost thr m rhost = m.any (entryMatches (stripPort rhost)) := by
+  unfold matchHost useFast
+  simp only [h, Bool.and_false, Bool.false_and, Bool.false_eq_true, if_false]
+  exact hostLoop_small _ _
+
 /-! ## path.Clean / cleanPath -/
 
 /-- `path.Clean` is idempotent -/
@@ -162,10 +176,11 @@ def plainPatterns (l : List Bytes) : Bool :=
 def unescapedPatterns (l : List Bytes) : Bool := l.all (fun pat => !pat.contains cPct)
 
 /-- **what MatchPath respects, in every mode**: the answer is a function of the two cleaned
-    forms (slashes merged / empty segments kept) of the lower-cased path and of the escaped path. -/
+    forms (slashes merged / empty segments kept) of the lower-cased path and of the lower-cased
+    escaped path. -/
 theorem matchPath_depends_only_on_clean_forms (l : List Bytes) (p e p' e' : Bytes)
     (hp : ∀ m, cleanPathMode m (lower p) = cleanPathMode m (lower p'))
-    (he : ∀ m, cleanPathMode m e = cleanPathMode m e') :
+    (he : ∀ m, cleanPathMode m (lower e) = cleanPathMode m (lower e')) :
     pathCase l p e = pathCase l p' e' := by
   rw [pathCase_eq_any, pathCase_eq_any]
   congr 1
@@ -221,7 +236,7 @@ def mergingPatterns (l : List Bytes) : Bool := l.all (fun pat => !containsSub pa
 
 /-- lists without a `//` pattern only ever look at the slash-merged forms -/
 theorem matchPath_merge_only (l : List Bytes) (p e p' e' : Bytes) (hl : mergingPatterns l = true)
-    (hp : cleanPath (lower p) = cleanPath (lower p')) (he : cleanPath e = cleanPath e') :
+    (hp : cleanPath (lower p) = cleanPath (lower p')) (he : cleanPath (lower e) = cleanPath (lower e')) :
     pathCase l p e = pathCase l p' e' := by
   rw [pathCase_eq_any, pathCase_eq_any]
   apply any_congr_mem
@@ -242,14 +257,15 @@ theorem matchPath_ignores_escaped_form (l : List Bytes) (p e e' : Bytes) (hl : u
     pathCase l p e = pathCase l p e' :=
   matchPath_keepslashes_invariant l p e p e' hl rfl rfl
 
-/-- **letter case**, provable part (full statement: `Witness.matchPath_case_invariant_full_fails`):
-    excluded are lists with a `%` pattern -/
-theorem matchPath_case_invariant_partial (l : List Bytes) (p e p' e' : Bytes)
-    (hl : unescapedPatterns l = true) (hc : lower p = lower p') :
+/-- **letter case never matters, for every pattern list** (`%` patterns included: the escaped
+    path is lower-cased like the unescaped one; before that `fix:` commit this clause failed,
+    see `Witness.matchPath_case_invariant_old_code_fails`) -/
+theorem matchPath_case_invariant (l : List Bytes) (p e p' e' : Bytes)
+    (hc : lower p = lower p') (he : lower e = lower e') :
     pathCase l p e = pathCase l p' e' := by
-  apply matchPath_keepslashes_invariant l p e p' e' hl
-  · unfold canonPath; rw [hc]
-  · unfold canonPathKeepSlashes; rw [hc]
+  apply matchPath_depends_only_on_clean_forms
+  · intro m; rw [hc]
+  · intro m; rw [he]
 
 /-- **duplicate slashes**, provable part (full statement: `Witness.matchPath_dup_slash_full_fails`):
     excluded are lists with a `//` pattern, for which keeping empty segments is the documented intent -/
@@ -260,7 +276,8 @@ theorem matchPath_dup_slash_invariant_partial (l : List Bytes) (a b ea eb : Byte
   apply matchPath_merge_only l _ _ _ _ hl
   · simp only [lower_append, lower_cons]
     exact cleanPath_dup_slash _ _
-  · exact cleanPath_dup_slash _ _
+  · simp only [lower_append, lower_cons]
+    exact cleanPath_dup_slash _ _
 
 /-- both cleaning modes ignore an inserted `/./` … -/
 theorem cleanPathMode_dot_segment (mode : Bool) (a b : Bytes) :
@@ -291,12 +308,14 @@ theorem matchPath_dot_segment_invariant (l : List Bytes) (a b ea eb : Bytes) :
   · intro m
     simp only [lower_append, lower_cons]
     exact cleanPathMode_dot_segment m _ _
-  · intro m; exact cleanPathMode_dot_segment m _ _
+  · intro m
+    simp only [lower_append, lower_cons]
+    exact cleanPathMode_dot_segment m _ _
 
 /-- … and `/x/../` inserted into the request target (`x` an ordinary segment; `x'` is its
     spelling in the escaped form) -/
 theorem matchPath_dotdot_segment_invariant (l : List Bytes) (a b ea eb x x' : Bytes)
-    (hx : normalSeg (lower x) = true) (hx' : normalSeg x' = true) :
+    (hx : normalSeg (lower x) = true) (hx' : normalSeg (lower x') = true) :
     pathCase l (a ++ cSlash :: (x ++ cSlash :: cDot :: cDot :: cSlash :: b))
                (ea ++ cSlash :: (x' ++ cSlash :: cDot :: cDot :: cSlash :: eb)) =
       pathCase l (a ++ cSlash :: b) (ea ++ cSlash :: eb) := by
@@ -304,7 +323,9 @@ theorem matchPath_dotdot_segment_invariant (l : List Bytes) (a b ea eb x x' : By
   · intro m
     simp only [lower_append, lower_cons]
     exact cleanPathMode_dotdot_segment m _ _ _ hx
-  · intro m; exact cleanPathMode_dotdot_segment m _ _ _ hx'
+  · intro m
+    simp only [lower_append, lower_cons]
+    exact cleanPathMode_dotdot_segment m _ _ _ hx'
 
 /-- **the order of the patterns never matters** (Provision's `*` shuffle included) -/
 theorem matchPath_perm_invariant (l l' : List Bytes) (p e : Bytes) (hp : l.Perm l') :
@@ -434,5 +455,14 @@ example : isRooted [47, 120, 47, 46, 46, 47, 65, 68, 77, 73, 78, 47, 112, 97, 11
     hold for EVERY threshold, so a changed constant cannot break the property — it would only make the
     executable model disagree with the code, and this statement says why.) -/
 theorem large_threshold_matches_source : Gen.matchHostLargeThreshold = some 100 := by decide
+
+example : pathCase [[47, 97, 37, 50, 102, 98, 47, 106]] [47, 97, 47, 98, 47, 106] [47, 97, 37, 50, 102, 98, 47, 106] = true ∧ pathCase [[47, 97, 37, 50, 102, 98, 47, 106]] [47, 65, 47, 98, 47, 74] [47, 65, 37, 50, 70, 98, 47, 74] = true ∧
+    lower [47, 97, 47, 98, 47, 106] = lower [47, 65, 47, 98, 47, 74] ∧ lower [47, 97, 37, 50, 102, 98, 47, 106] = lower [47, 65, 37, 50, 70, 98, 47, 74] := by decide
+-- an escape that decodes to an upper-case letter (`%4A` = `J`) matches the lower-case pattern too
+example : pathCase [[47, 97, 37, 50, 102, 98, 47, 106]] [47, 65, 47, 98, 47, 74] [47, 65, 37, 50, 70, 98, 47, 37, 52, 65] = true := by decide
+
+-- a non-ASCII request host (U+017F `ſ`, bytes C5 BF) against a "large" list
+example : asciiOnly (stripPort [197, 191, 46, 99, 111, 109]) = false := by decide
+example : hostCase 2 [[115, 46, 99, 111, 109], [98, 46, 116, 101, 115, 116], [42, 46, 99, 46, 116, 101, 115, 116]] [197, 191, 46, 99, 111, 109] = .res false := by decide
 
 end CaddyModel.C06
